@@ -74,7 +74,7 @@ class KDMixWrapper(KDWrapper):
         use_cutmix = apply < self.cutmix_p
 
         # load second sample
-        idx2 = rng.integers(len(self))
+        idx2 = int(rng.integers(len(self)))
         x2 = self.dataset.getitem_x(idx2, ctx=ctx)
         cls2 = self.dataset.getitem_class(idx2, ctx=ctx)
 
